@@ -80,9 +80,12 @@ use heapless::Vec;
 
 // opaque payload types (only passed around)
 #[derive(Clone, Copy)]
+#[verifier::external_body]
 pub struct HoldTapConfig<'a> { p: core::marker::PhantomData<&'a u8> }
 #[verifier::reject_recursive_types(T)]
+#[verifier::external_body]
 pub struct ChordsGroup<'a, T> { p: core::marker::PhantomData<&'a T> }
+#[verifier::external_body]
 pub struct KeyCode { p: u16 }
 
 //@ item keyberon/src/layout.rs type KCoord
@@ -213,6 +216,7 @@ pub ghost struct DoCall<'a, T> {
 /// R5: the layer-stack iterator handed to do_action (used there to resolve transparent keys) is
 /// abstracted: `&mut layer_stack.into_iter()` / `&mut layer_stack.clone().into_iter()` become this
 /// opaque argument.  ASSUMED irrelevant to which action runs where.
+#[verifier::external_body]
 pub struct VerifLayerIter { p: u8 }
 #[verifier::external_body]
 fn verif_ls_iter(ls: &LayerStack) -> VerifLayerIter { unimplemented!() }
